@@ -56,13 +56,13 @@ theorem Inv.commit {s₀ : SStore M} {c : Config M} (h : Inv s₀ c) (t : Nat) (
     (hinv : th.invAt ≤ c.log.length)
     (hspec : specStep op (absS c.store) = (.ok (some v), setAt (absS c.store) i (cell.map (·.2))))
     (hopid : opId op = i)
-    (tm : Nat) (st : Nat → Nat) (tk rg : Nat) :
+    (tm : Nat) (st : Nat → Nat) (tk rg : Nat) (ra : Nat → List (Ev M)) :
     Inv s₀ { store := setAt c.store i cell
              nextRef := nr'
              log := c.log ++ [⟨t, th.done.length, op, tm⟩]
              threads := setAt c.threads t
                (th.finish op (.ok (some v)) .committed c.log.length (c.log.length + 1))
-             stamp := st, tick := tk, rng := rg } := by
+             stamp := st, tick := tk, rng := rg, refusedAt := ra } := by
   have hst : ∀ j r b, setAt c.store i cell j = some (r, b) → c.store j = some (r, b) ∨ c.nextRef ≤ r := by
     intro j r b hj
     simp only [setAt] at hj
@@ -129,6 +129,10 @@ theorem Inv.commit {s₀ : SStore M} {c : Config M} (h : Inv s₀ c) (t : Nat) (
 /-- The invariant does not mention the rng position, the stamps or the step counter. -/
 theorem Inv.frame {s₀ : SStore M} {c : Config M} (h : Inv s₀ c) (st : Nat → Nat) (tk rg : Nat) :
     Inv s₀ { c with stamp := st, tick := tk, rng := rg } :=
+  ⟨h.store, h.refs, h.thr, h.owned⟩
+
+theorem Inv.frame' {s₀ : SStore M} {c : Config M} (h : Inv s₀ c) (tk : Nat) (ra : Nat → List (Ev M)) :
+    Inv s₀ { c with tick := tk, refusedAt := ra } :=
   ⟨h.store, h.refs, h.thr, h.owned⟩
 
 theorem resolveId_gen {env : Env} {c : Config M} {u₀ u : UpdOp M} {r : Nat}
@@ -274,7 +278,7 @@ theorem Inv.stepCommit {s₀ : SStore M} {c : Config M} (h : Inv s₀ c) (t : Na
       show specUpd u (absS c.store) = _
       exact specUpd_of_read hs hch
     exact Inv.commit h t (c.threads t) rfl (.upd u) new u.id (some (c.nextRef, new)) (c.nextRef + 1)
-      (by omega) (by intro r b hrb; cases hrb; omega) (by omega) hspec rfl _ _ _ _
+      (by omega) (by intro r b hrb; cases hrb; omega) (by omega) hspec rfl _ _ _ _ _
 
 theorem Inv.stepDel {s₀ : SStore M} {c : Config M} (h : Inv s₀ c) (t : Nat)
     (d : DelOp M) (seen : Option (Nat × M)) (attempt : Nat)
@@ -355,7 +359,7 @@ theorem Inv.stepDel {s₀ : SStore M} {c : Config M} (h : Inv s₀ c) (t : Nat)
             = (.ok (some b'), setAt (absS c.store) d.id ((none : Option (Nat × M)).map (·.2))) := by
           simp [specStep, specDel, absS, hb', hpre]
         exact Inv.commit h t (c.threads t) rfl (.del d) b' d.id none c.nextRef
-          (Nat.le_refl _) (by intro r b hrb; cases hrb) (by omega) hspec rfl _ _ _ _
+          (Nat.le_refl _) (by intro r b hrb; cases hrb) (by omega) hspec rfl _ _ _ _ _
 
 theorem Inv.stepCore {s₀ : SStore M} {c : Config M} (h : Inv s₀ c) (env : Env) (t : Nat) :
     Inv s₀ (stepCore true env c t) := by
@@ -369,7 +373,7 @@ theorem Inv.stepCore {s₀ : SStore M} {c : Config M} (h : Inv s₀ c) (env : En
 
 theorem Inv.step {s₀ : SStore M} {c : Config M} (h : Inv s₀ c) (env : Env) (t : Nat) :
     Inv s₀ (step true env c t) :=
-  (h.stepCore env t).frame _ _ _
+  (h.stepCore env t).frame' _ _
 
 theorem Inv.init (s₀ : SStore M) (progs : Nat → List (Op M)) : Inv s₀ (initCfg s₀ progs) := by
   refine ⟨?_, ?_, ?_, ?_⟩
